@@ -1,9 +1,11 @@
 import Spine.ApprovalExact
 import Spine.ApprovalFrame
+import Spine.ApprovalRefine
 /-!
 # C12 — write approval: unanimous, timely, exactly one outcome per write
 
-Property theorems only (lemmas: `Spine/ApprovalThm.lean`, `ApprovalExact.lean`, `ApprovalFrame.lean`).
+Property theorems only (lemmas: `Spine/ApprovalThm.lean`, `ApprovalExact.lean`, `ApprovalFrame.lean`,
+`ApprovalSpec.lean`, `ApprovalRefine.lean`).
 
 Model `Spine.Appr` (`Spine/Approval.lean`): the approval machinery of `FeatureLocal` for one peer (the maps of
 `feature_local.go` are keyed by the peer's SKI), event-sourced — `arrive w` (addPendingApproval + invocation of
@@ -24,7 +26,13 @@ Status of the clauses of the statement
   write's timer is no longer armed ⇒ the run *is* the repaired member's run).
 * "applied iff every callback approves before the timeout", "independently of any other pending write":
   REFUTED for the code as written (`c12_applied_iff_unanimous_refuted`: two fully approved writes both time out);
-  for the repaired member see `Spine/Props/C12.lean` section "refinement" below when present — otherwise MISSING.
+  PROVED for the repaired member over all event lists as a refinement: the model's outcomes of every write are those
+  of the per-write automaton `Appr.specStep` — a count of approvals committed while the write waits, applied by the
+  approval that completes the count, rejected by the first denial or by the timeout, untouched by anything later
+  (`c12_refines`, `c12_applied_iff_unanimous_in_time`, `c12_error_iff_denied_or_timed_out`,
+  `c12_applied_only_by_completing_approval`) — and an event about another write never changes a write's state
+  (`c12_independent`). "Before the timeout" is the order of events (commit before `timeoutTake`); how that order
+  arises from wall-clock time is A-time.
 * "presented once to every callback": PROVED for every member over all event lists (`c12_presented_once_each`).
 * real time ("before the approval timeout" as wall-clock time, that `time.AfterFunc` fires after the duration and
   `Stop` reports truthfully): assumption A-time; the harness measures it, the model quantifies over when the timer
@@ -133,5 +141,73 @@ theorem c12_partial_at_most_one (evs : List Ev) (hq : Quiet {} { nCb := 1 } evs)
 example : Quiet {} { nCb := 1 } [.arrive 1, .arrive 2, .arrive 3, .lookup 10 2, .commit 10 false, .lookup 11 1,
     .commit 11 true, .timeoutTake 3, .timeoutSend 3] := by
   simp [Quiet, NoStale, step, finish]
+
+/-! ### refinement: applied ⇔ unanimous in time, independence (repaired member) -/
+
+/-- Every write's outcomes in the repaired member, under every interleaving (any number of callbacks, pending writes,
+    verdict goroutines and timers), are exactly those of the per-write automaton of the statement: none while the
+    write is absent, waiting or being timed out, and the single outcome it ended with afterwards. -/
+theorem c12_refines (n : Nat) (evs : List Ev) (w : Nat) :
+    outs (run Cfg.clean n evs) w = match (specRun n evs).st w with
+      | .done o => [o]
+      | _ => [] :=
+  outs_of_R _ _ (run_refines n evs) w
+
+/-- "Applied if and only if every callback approves it before the approval timeout": the write is applied exactly
+    when its automaton ended in `done applied` — i.e. (see `c12_applied_only_by_completing_approval` and the
+    definition of `Appr.verdictW`) when the approvals committed while it was waiting reached the number of
+    callbacks before any denial and before the timeout took it. -/
+theorem c12_applied_iff_unanimous_in_time (n : Nat) (evs : List Ev) (w : Nat) :
+    (w, Out.applied) ∈ (run Cfg.clean n evs).outcomes ↔ (specRun n evs).st w = .done .applied := by
+  rw [mem_outcomes_iff, c12_refines]
+  cases h : (specRun n evs).st w with
+  | done o => cases o <;> simp
+  | absent => simp
+  | waiting k => simp
+  | expiring => simp
+
+/-- "A single denial, or the timeout, yields an error result": the write has an error outcome exactly when its
+    automaton ended in `done error`. -/
+theorem c12_error_iff_denied_or_timed_out (n : Nat) (evs : List Ev) (w : Nat) :
+    (w, Out.error) ∈ (run Cfg.clean n evs).outcomes ↔ (specRun n evs).st w = .done .error := by
+  rw [mem_outcomes_iff, c12_refines]
+  cases h : (specRun n evs).st w with
+  | done o => cases o <;> simp
+  | absent => simp
+  | waiting k => simp
+  | expiring => simp
+
+/-- The automaton applies a write only at the commit of an approval whose operation looked the write up while it was
+    waiting and which completes the count: with `n > 1` callbacks it is the approval after `n − 1` counted ones
+    (`k + 1 ≥ n`), with one callback the first. Nothing else — no denial, no timeout, no event of another write —
+    produces `applied`. -/
+theorem c12_applied_only_by_completing_approval (n : Nat) (sp : Sp) (e : Ev) (w : Nat)
+    (h : (specStep n sp e).st w = .done .applied) :
+    sp.st w = .done .applied ∨
+    ∃ op x k, e = .commit op true ∧ sp.lookups.find? (·.1 = op) = some (x, w) ∧ sp.st w = .waiting k ∧
+      ¬ (n > 1 ∧ k + 1 < n) :=
+  spec_applied_inv n sp e w h
+
+/-- "Independently of any other write pending at the same time": an event that is not about write `w` (it names
+    another write, or it is the commit of a verdict whose operation looked up another write) leaves `w`'s state in
+    the automaton — hence, by `c12_refines`, its outcome in the repaired member — untouched. -/
+theorem c12_independent (n : Nat) (sp : Sp) (e : Ev) (w : Nat) (h : ¬ concerns sp w e) :
+    (specStep n sp e).st w = sp.st w :=
+  spec_frame n sp e w h
+
+/-- non-vacuity: the 14-event schedule that defeats the code as written, on the automaton: both writes applied;
+    and a schedule with a denial, a timeout and a verdict that commits after the timeout -/
+example :
+    (specRun 2 [.arrive 1, .arrive 2, .lookup 10 1, .commit 10 true, .lookup 11 2, .commit 11 true,
+      .lookup 12 1, .commit 12 true, .lookup 13 2, .commit 13 true]).st 1 = .done .applied ∧
+    (specRun 2 [.arrive 1, .arrive 2, .lookup 10 1, .commit 10 true, .lookup 11 2, .commit 11 true,
+      .lookup 12 1, .commit 12 true, .lookup 13 2, .commit 13 true]).st 2 = .done .applied ∧
+    (specRun 2 [.arrive 1, .arrive 2, .arrive 3, .lookup 10 1, .commit 10 false, .lookup 11 2, .timeoutTake 2,
+      .commit 11 true, .timeoutSend 2, .lookup 12 3, .commit 12 true]).st 1 = .done .error ∧
+    (specRun 2 [.arrive 1, .arrive 2, .arrive 3, .lookup 10 1, .commit 10 false, .lookup 11 2, .timeoutTake 2,
+      .commit 11 true, .timeoutSend 2, .lookup 12 3, .commit 12 true]).st 2 = .done .error ∧
+    (specRun 2 [.arrive 1, .arrive 2, .arrive 3, .lookup 10 1, .commit 10 false, .lookup 11 2, .timeoutTake 2,
+      .commit 11 true, .timeoutSend 2, .lookup 12 3, .commit 12 true]).st 3 = .waiting 1 := by
+  decide
 
 end Spine.Props.C12
